@@ -133,9 +133,16 @@ def run_history(case, second=False):
             _, rowspecs, cur, kind = st[:4]
             rows = [mkrow(r) for r in rowspecs]
             array = fsarray(rows) if kind == "fsarray" else rows
+            if kind == "fsassign":
+                # an FSArray filled by whole-row assignment a[i] = row (the form the module's docstring shows): the rows are stored as
+                # they are, so the array's declared width says nothing about their lengths
+                from curtsies.formatstringarray import FSArray
+                array = FSArray(len(rows), min([len(r) for r in rows], default=0))
+                for k_, r_ in enumerate(rows):
+                    array[k_] = r_
             if case.get("reuse"):
                 # the caller keeps ONE buffer object and edits it in place between renders (what an application's paint loop does)
-                if kind == "fsarray":
+                if kind in ("fsarray", "fsassign"):
                     if "fs" in persist:
                         persist["fs"].rows[:] = array.rows
                         persist["fs"].num_columns = array.num_columns
@@ -235,6 +242,10 @@ def family():
                     yield dict(H=H, W=W, hide=hide, steps=[["render", p[a], [0, 0], kind], ["render", p[b], [H - 1, W - 1], "list"]],
                                tag=f"{a}>{b}")
         sub = ["full", "fullred", "short", "fewer", "empty", "mixed"]
+        for a in names:
+            for b in sub:
+                yield dict(H=H, W=W, hide=False, tag=f"{a}>{b} (rows assigned into an FSArray)",
+                           steps=[["render", p[a], [0, 0], "fsassign"], ["render", p[b], [H - 1, 0], "fsassign"]])
         for a in sub:
             for b in sub:
                 yield dict(H=H, W=W, hide=True, tag=f"{a}>{b}>{a}",
@@ -303,7 +314,7 @@ def rand_case(seed):
         rows = [_rand_row(rng, W, (prev[i] if i < len(prev) else None), fit) for i in range(n)]
         if fit:
             rows = [r for r in rows if rowlen(r) <= W]
-        case["steps"].append(["render", rows, [rng.randrange(H), rng.randrange(W)], "fsarray" if rng.random() < .3 else "list"])
+        case["steps"].append(["render", rows, [rng.randrange(H), rng.randrange(W)], rng.choice(["fsarray"] * 3 + ["fsassign"] * 2 + ["list"] * 5)])
         prev, last_size = rows, (H, W)
     return case
 
